@@ -9,6 +9,8 @@ import (
 	"fmt"
 	"runtime"
 	"strings"
+	"sync"
+	"sync/atomic"
 )
 
 // PointInfo describes one recorded choice point of an execution.
@@ -81,10 +83,16 @@ type Sched struct {
 	enabledBuf []*Thread
 	exited     bool
 	frozen     bool
+	isFree     bool
+	freeWG     sync.WaitGroup
 	events     []ThreadEvent
 }
 
 var cur *Sched
+
+// free is set while harness bodies run free (real goroutines, real locks) for
+// the separate -race pass; shims see Cur()==nil and pass through.
+var free *Sched
 
 // Cur returns the active scheduler or nil.
 func Cur() *Sched { return cur }
@@ -169,6 +177,10 @@ func (s *Sched) killOthers(t0 *Thread, record bool) {
 // KillOthers models process exit seen from thread 0: every other thread is
 // abandoned where it is and never runs again.
 func (s *Sched) KillOthers() {
+	if s.isFree {
+		s.freeWG.Wait() // real goroutines cannot be abandoned: let them finish
+		return
+	}
 	if s.cur.id != 0 {
 		panic("vsched: KillOthers not on thread 0")
 	}
@@ -188,12 +200,38 @@ func (s *Sched) Poisoned() bool { return s.cur.poisoned }
 
 func (s *Sched) CurID() int { return s.cur.id }
 
-func (s *Sched) Steps() uint64 { return s.stepCount }
+func (s *Sched) Steps() uint64 {
+	if s.isFree {
+		return atomic.AddUint64(&s.stepCount, 1)
+	}
+	return s.stepCount
+}
+
+// RunFree runs body with a scheduler object whose operations are implemented
+// with real goroutines and a WaitGroup: the code under test runs free (for -race).
+func RunFree(body func(s *Sched)) {
+	s := &Sched{isFree: true}
+	free = s
+	body(s)
+	s.freeWG.Wait()
+	free = nil
+}
+
+// Free reports whether s is the free-running pseudo scheduler.
+func (s *Sched) Free() bool { return s.isFree }
 
 // Go registers a new thread. In pass-through mode it is a plain go statement.
 func Go(name string, f func()) {
 	s := cur
 	if s == nil {
+		if fs := free; fs != nil {
+			fs.freeWG.Add(1)
+			go func() {
+				defer fs.freeWG.Done()
+				f()
+			}()
+			return
+		}
 		go f()
 		return
 	}
@@ -504,6 +542,10 @@ func (s *Sched) SleepPoint() {
 // Drain lets every other thread run until all of them are finished or blocked.
 // Only meaningful on thread 0 in deterministic (non-recording) mode.
 func (s *Sched) Drain() {
+	if s.isFree {
+		s.freeWG.Wait()
+		return
+	}
 	s.Wait("drain", func() bool {
 		for _, t := range s.live {
 			if t.id == 0 || t.done {
@@ -520,6 +562,9 @@ func (s *Sched) Drain() {
 // Freeze models "the process exits now" from a client thread: from this moment
 // only thread 0 can run; Parallel returns and thread 0 is expected to call KillOthers.
 func (s *Sched) Freeze() {
+	if s.isFree {
+		return
+	}
 	if s.cur.poisoned {
 		return
 	}
@@ -535,7 +580,12 @@ func (s *Sched) Freeze() {
 func (s *Sched) Unfreeze() { s.frozen = false }
 
 // Events returns a copy of the thread life log.
-func (s *Sched) Events() []ThreadEvent { return append([]ThreadEvent(nil), s.events...) }
+func (s *Sched) Events() []ThreadEvent {
+	if s.isFree {
+		return nil
+	}
+	return append([]ThreadEvent(nil), s.events...)
+}
 
 // Pending reports the number of other live threads.
 func (s *Sched) Pending() int {
@@ -552,6 +602,20 @@ func (s *Sched) Pending() int {
 // recorded and follow Opts.Prefix) and returns when every thread other than
 // thread 0 has finished. Threads that were pending before the call take part.
 func (s *Sched) Parallel(fns ...func()) {
+	if s.isFree {
+		var wg sync.WaitGroup
+		for _, f := range fns {
+			wg.Add(1)
+			f := f
+			go func() {
+				defer wg.Done()
+				f()
+			}()
+		}
+		wg.Wait()
+		s.freeWG.Wait()
+		return
+	}
 	if s.cur.id != 0 {
 		panic("vsched: Parallel not on thread 0")
 	}
